@@ -63,7 +63,7 @@ class C04(FrameSpec):
     rule = ("random codec configurations (length-field 1/2/4/8 x byte order x offsets x adjustments x strips, stand-alone prepender incl. adjustments pushing the value to the field "
             "capacity, varint, 8 delimiters, fixed) incl. ~5% invalid ones; 1-4 payloads per case with lengths around 0/255/256/65535/65536/max-frame and 6 carrier types; the "
             "concatenated encodings re-fragmented (single chunk, 1-byte chunks, random splits with empty chunks) and decoded until the first exception; "
-            "non-trivial = encode of a non-empty payload, or a decode over a fragmented stream or delivering at least one frame; distinct by full line; 1/3 of the cases write their payloads as consecutive sub-slices of one caller buffer; every stream up to 600 bytes is decoded whole, byte by byte and under two random fragmentations; 1/6 of the length-field configurations strip 1-8 bytes beyond the header; an implementation encoding that differs from the model's is decoded by the model and compared frame by frame")
+            "non-trivial = encode of a non-empty payload, or a decode over a fragmented stream or delivering at least one frame; distinct by full line; 1/3 of the cases write their payloads as consecutive sub-slices of one caller buffer; every stream up to 600 bytes is decoded whole, byte by byte and under two random fragmentations; 1/6 of the length-field configurations strip 1-8 bytes beyond the header; an implementation encoding that differs from the model's is decoded by the model and compared frame by frame; variable-length codec (max from {1,2,5,16,100,1000,1024,1500,2048,5000}, non-empty fragments); a stream in one piece ending in EOF reaches the decoder as a *bytes.Buffer half of the time; half of the batched cases are corked (all records encoded before any emitted frame is read)")
     assumptions = ("consumer drains every delivered frame", "readers never return (0, nil) for a non-empty buffer", "|lengthAdjustment| < 2^62 (int addition before the int64 conversion does not overflow)")
     modelled_not_verified = ("encoding/binary", "io.ReadFull / io.CopyN / io.MultiReader / ioutil.ReadAll", "utils.ToBytes (C14)")
 
